@@ -21,7 +21,7 @@
    the moment of the append, volume_write.go doWriteRequest/doDeleteRequest, stored
    with no monotonic guard) is an INPUT of every Write/Delete operation: equal and
    backward clock readings are part of the histories. *)
-From Coq Require Import List NArith Bool Arith.
+From Coq Require Import List NArith ZArith Bool Arith.
 Import ListNotations.
 Local Open Scope N_scope.
 
@@ -307,5 +307,57 @@ Fixpoint run (nkeys : N) (st : state) (h : list op) : list obs :=
       match o with
       | Backup => observe nkeys st' :: run nkeys st' h'
       | _ => run nkeys st' h'
+      end
+  end.
+
+(* ---------- the .idx file as an observable ----------
+   The model keeps no separate index (see the header): idx entry i is DEFINED as
+   (key, byte offset, Size) of .dat record i.  [idx_of] spells these entries out so
+   that the check can compare them with the bytes of the real .idx file after every
+   operation; [rec_at_from] is the way the code goes from an idx entry back to a
+   record (readAppendAtNs(offset), ReadData(offset)), and
+   proof/BackupProofs.v idx_entry_points_at_record shows that for [idx_of] this
+   lookup yields record i — the fact findLastAppendAtNs / BinarySearchByAppendAtNs
+   are modelled with.  Which NeedleMapper implementation (NeedleMapInMemory,
+   NeedleMapLevelDb, NeedleMapLevelDbMedium, NeedleMapLevelDbLarge) maintains the
+   .idx is NOT a parameter of any definition in this file: every kind has to produce
+   exactly these entries and serve exactly [read]. *)
+Definition idx_entry := (N * N * Z)%type.   (* key, Offset.ToActualOffset(), Size (TombstoneFileSize = -1) *)
+
+Definition idx_size (r : rec) : Z :=
+  if r_live r then Z.of_N (r_len r + 5 + r_meta r) else (-1)%Z.
+
+Fixpoint idx_from (off : N) (l : list rec) : list idx_entry :=
+  match l with
+  | [] => []
+  | r :: l' => (r_key r, off, idx_size r) :: idx_from (off + disk_size r) l'
+  end.
+
+Definition idx_of (v : vol) : list idx_entry := idx_from 8 (* SuperBlockSize *) (recs v).
+
+(* the record that starts at byte offset [off] of a .dat whose records [l] start at [cur] *)
+Fixpoint rec_at_from (cur : N) (l : list rec) (off : N) : option rec :=
+  match l with
+  | [] => None
+  | r :: l' => if off =? cur then Some r else rec_at_from (cur + disk_size r) l' off
+  end.
+Definition rec_at (v : vol) (off : N) : option rec := rec_at_from 8 (recs v) off.
+
+(* the source's .idx after EVERY operation of the history *)
+Fixpoint run_sidx (st : state) (h : list op) : list (list idx_entry) :=
+  match h with
+  | [] => []
+  | o :: h' => let st' := step st o in idx_of (src st') :: run_sidx st' h'
+  end.
+
+(* the backup's .idx after every backup run *)
+Fixpoint run_bidx (st : state) (h : list op) : list (list idx_entry) :=
+  match h with
+  | [] => []
+  | o :: h' =>
+      let st' := step st o in
+      match o with
+      | Backup => idx_of (bk st') :: run_bidx st' h'
+      | _ => run_bidx st' h'
       end
   end.
